@@ -184,6 +184,16 @@ def check_binop(mod, R, cname, name, fn):
         raise AnalysisError('%s.%s signature changed' % (cname, name))
     y = params[1]
     key = '%s.%s' % (cname, name)
+    if opname == 'rshift':
+        # a right shift by a count of at least the width is 0 for non-negative values only: the signed classes inherit the method
+        # (an arithmetic shift of a negative value keeps all-ones), so an early `return cls(0)` guarded by the count is a violation
+        for p in return_paths(fn):
+            if isinstance(p.ret, ast.Call) and len(p.ret.args) == 1 and isinstance(p.ret.args[0], ast.Constant) and p.ret.args[0].value == 0:
+                big = [t for t, pol in p.conds if pol and isinstance(t, ast.Compare) and len(t.ops) == 1 and isinstance(t.ops[0], (ast.GtE, ast.Gt)) and u(t.comparators[0]).endswith('.size')]
+                if big:
+                    R.violation('%s[%s]' % (key, u(big[0])), key + ':zero-for-large-count', '%s returns 0 when %s: true for non-negative operands only; the signed classes inherit this method '
+                                'and the arithmetic right shift of a negative value by a count >= the width is -1' % (name, u(big[0])), where(mod, fn), witness='int8(-1) >> 8 == int8(0)')
+                    return
     for p in return_paths(fn):
         desc = ' and '.join(('' if pol else 'not ') + u(t) for t, pol in p.conds) or 'always'
         inst = '%s[%s]' % (key, desc)
@@ -496,6 +506,7 @@ def run(ctx, report):
 
 
 MUTANTS = [
+    ('rshift-zero-large-count', 'miasmx/tools/modint.py', "    def __rshift__(self, y):\n        if isinstance(y, moduint):\n            cls = self.maxcast(y)\n            return cls(self.arg >> y.arg)", "    def __rshift__(self, y):\n        if isinstance(y, moduint):\n            cls = self.maxcast(y)\n            if y.arg >= cls.size:\n                return cls(0)\n            return cls(self.arg >> y.arg)", 'C14.op'),
     ('lshift-unbounded', 'miasmx/tools/modint.py', "        if y >= cls.size:\n            # every bit is shifted out (do not build the huge intermediate)\n            return cls(0)\n", "", 'C14.op'),
     ('pow-exact', 'miasmx/tools/modint.py', "        return cls(pow(self.arg, v, cls.limit))", "        return cls(self.arg ** v)", 'C14.op'),
     ('sub-via-add-neg', 'miasmx/tools/modint.py', "    def __sub__(self, y):\n", "    def __sub__(self, y):\n        return self.__add__(-y)\n", 'C14.op'),
